@@ -604,9 +604,8 @@ fn on_case_death(_cfg: &Cfg, generator: &str, index: u64, death: &str) -> Death 
 /* ------------------------------------------ sanitizer extras ------------------------------------------ */
 
 fn extra(cfg: &Cfg, stats: &mut Stats) {
-    if cfg.tier != Tier::Thorough {
-        return;
-    }
+    // quick: the allocator-identity race under Miri at four scheduler seeds; thorough: sixteen seeds and the storm under
+    // ThreadSanitizer
     crate::props::c17_san::run(cfg, stats);
 }
 
